@@ -121,7 +121,7 @@ def check(rng, deep):
     out, n = [], 0
     T = 8
     mc = m.multi_calib()
-    fixtures = [('sim', m.sim, m.SIM_CALIB, ['r', 'w', 'beta', 'sd_e', 'rho_e'], ['A', 'C', 'SHARE'], True),
+    fixtures = [('sim', m.sim, m.SIM_CALIB, ['r', 'w', 'beta', 'sd_e', 'rho_e'], ['A', 'C', 'SHARE', 'AINC'], True),
                 ('pair_het', m.pair_het, m.PAIR_CALIB, ['r', 'atw', 'shift', 'risk', 'sd_e'], ['A', 'C', 'UC'], True),
                 ('pair_stage', m.pair_stage, m.PAIR_CALIB, ['r', 'atw', 'shift', 'risk', 'sd_e'], ['A', 'C', 'UC'], False),
                 ('multi', m.multi, mc, ['r', 'w', 'shift_e', 'shift_z'], ['A', 'C'], True)]
